@@ -194,12 +194,24 @@ def showWorld (w : World) : String :=
     match w.views.cid h, w.views.cell h with
     | some c, some vc => s!"v{h}@{(clsOf w.views c).getD h}=" ++ showView w ln num vc
     | _, _ => s!"v{h}@?"
-  " ".intercalate (mhs ++ ss ++ vs)
+  -- `A=` what can be read about an object through two routes agrees; `K=` every result object handed out earlier in the
+  -- case still reads the same (both asserted by the adapter on the real objects; the model's claim is that they hold)
+  " ".intercalate (mhs ++ ss ++ vs ++ ["A=ok", "K=ok"])
 
 def showRes : Res → String
   | .ok => "ok"
   | .err n => "err " ++ n
   | .bad => "bad-op"
+
+/-- a name token: `-` (empty) or lower-case letters / digits -/
+def name? (s : String) : Option String :=
+  if s == "-" then some ""
+  else if s != "" && s.toList.all (fun c => c.isLower || c.isDigit) then some s
+  else none
+
+/-- a sequence token: upper-case ASCII letters -/
+def seq? (s : String) : Option (List Nat) :=
+  if s != "" && s.toList.all (fun c => c.isUpper) then some (s.toList.map (·.toNat)) else none
 
 def parseMh (line : String) : Option Own.Op :=
   match words line with
@@ -213,6 +225,8 @@ def parseMh (line : String) : Option Own.Op :=
   | ["merge", h, g] => do pure (.merge (← nat? h) (← nat? g))
   | "setab" :: h :: c :: ps => do pure (.setAbundances (← nat? h) (← pairs? ps) (← bool? c))
   | ["settrack", h, b] => do pure (.setTrack (← nat? h) (← bool? b))
+  | ["addseq", h, force, sq] => do pure (.addSeq (← nat? h) (← seq? sq) (← bool? force))
+  | ["addprot", h, sq] => do pure (.addProt (← nat? h) (← seq? sq))
   | ["intofrozen", h] => do pure (.intoFrozen (← nat? h))
   | ["tomut", r, h] => do pure (.toMutable (← nat? r) (← nat? h))
   | ["tofrozen", r, h] => do pure (.toFrozen (← nat? r) (← nat? h))
@@ -224,16 +238,6 @@ def parseMh (line : String) : Option Own.Op :=
   | ["inter", r, h, g] => do pure (.inter (← nat? r) (← nat? h) (← nat? g))
   | "ro" :: name :: hs => do pure (.readOnly name (← nats? hs))
   | _ => none
-
-/-- a name token: `-` (empty) or lower-case letters / digits -/
-def name? (s : String) : Option String :=
-  if s == "-" then some ""
-  else if s != "" && s.toList.all (fun c => c.isLower || c.isDigit) then some s
-  else none
-
-/-- a sequence token: upper-case ASCII letters -/
-def seq? (s : String) : Option (List Nat) :=
-  if s != "" && s.toList.all (fun c => c.isUpper) then some (s.toList.map (·.toNat)) else none
 
 def kw1? (s : String) : Option (Nat × Option Nat) :=
   match s.splitOn "=" with
